@@ -11,10 +11,18 @@ import JsonV.Lemmas.QuoteSafe
 import JsonV.Lemmas.QuoteTotal
 import JsonV.Lemmas.QuoteSpec
 import JsonV.Lemmas.QuoteMeaning
+import JsonV.Lemmas.QuotePreserve
+import JsonV.Lemmas.QuoteWf
+import JsonV.Lemmas.QuoteCanon
+import JsonV.Lemmas.QuoteRaw
+import JsonV.Lemmas.GlueQuote
+import JsonV.Lemmas.QuoteSpan
+import JsonV.Gen.Lits
 
 namespace JsonV.Props.C11
 open JsonV JsonV.Model.Utf8 JsonV.Model.Quote JsonV.Spec.StringSpec
 open JsonV.Lemmas.QuoteL JsonV.Lemmas.QuoteSafe JsonV.Lemmas.QuoteTotal JsonV.Lemmas.QuoteSpec JsonV.Lemmas.QuoteMeaning
+open JsonV.Lemmas.QuotePreserve JsonV.Lemmas.QuoteWf JsonV.Lemmas.QuoteCanon JsonV.Lemmas.QuoteRaw
 
 /-! ### Tie A: the regenerated table -/
 
@@ -32,6 +40,24 @@ theorem escapeASCII_spec : ∀ c : Fin 128,
 theorem escapeASCII_model : ∀ c : Fin 128, escapeASCII c.val = JsonV.Gen.jsonwire_escapeASCII[c.val]! := by
   decide +kernel
 
+/-- Tie A: the string/character literals of `appendEscapedASCII` (regenerated from encode.go, in source order:
+case characters and the two-byte escapes they map to) are the ones the model emits. -/
+theorem appendEscapedASCII_lits :
+    JsonV.Gen.jsonwire_appendEscapedASCII_strs =
+      [[0x22], [0x5c], [0x5c],
+       [0x08], (appendEscapedASCII 0x08).map UInt8.toNat, [0x0c], (appendEscapedASCII 0x0c).map UInt8.toNat,
+       [0x0a], (appendEscapedASCII 0x0a).map UInt8.toNat, [0x0d], (appendEscapedASCII 0x0d).map UInt8.toNat,
+       [0x09], (appendEscapedASCII 0x09).map UInt8.toNat] ∧
+    appendEscapedASCII 0x22 = [0x5c, 0x22] ∧ appendEscapedASCII 0x5c = [0x5c, 0x5c] := by decide +kernel
+
+/-- Tie A: the index and character literals of `hasEscapedUTF16Prefix` (regenerated from decode.go) are the
+constants of the model: indices 0 1 2 3 2 6, `\` `u` `d` `D` `c`..`f` `C`..`F` `0`..`9` `a`..`f` `A`..`F`. -/
+theorem hasEscapedUTF16Prefix_lits :
+    JsonV.Gen.jsonwire_hasEscapedUTF16Prefix_ints = [0, 1, 2, 3, 2, 6] ∧
+    JsonV.Gen.jsonwire_hasEscapedUTF16Prefix_strs =
+      [[0x5c], [0x75], [0x64], [0x44], [0x63], [0x66], [0x43], [0x46], [0x30], [0x39], [0x61], [0x66], [0x41], [0x46]] := by
+  decide +kernel
+
 /-! ### NeedEscape is sound (fields.go:466, jsontext/encode.go:466 rely on it) -/
 
 /-- A string that `NeedEscape` clears is quoted verbatim, without error, under every flag set. -/
@@ -40,6 +66,13 @@ theorem needEscape_sound (s : Bytes) (h : needEscape s = false) (f : QFlags) :
   simp [appendQuote, quoteLoop_of_not_needEscape f.html f.js s h]
 
 example : needEscape [0x61, 0x2f, 0x7f, 0xC3, 0xA9] = false := by decide +kernel
+
+/-! ### The copy-span bookkeeping of the Go loop -/
+
+/-- AppendQuote written literally with the Go indices `i`/`n` and the lazily flushed `dst` (`appendQuoteIdx`) equals
+the per-character model every other theorem is stated about — on every input and flag set. -/
+theorem quote_copy_span (f : QFlags) (src : Bytes) : appendQuoteIdx f src = appendQuote f src :=
+  JsonV.Lemmas.QuoteSpan.appendQuoteIdx_eq f src
 
 /-! ### Lossless -/
 
@@ -142,13 +175,49 @@ theorem reformat_js_safe_partial (f : QFlags) (src : Bytes) (hj : f.js = true) (
   · simp only [Bool.or_true, Bool.not_true, Bool.false_and, Bool.false_eq_true, ↓reduceIte]
     exact js_safe f _ hj
 
-/-- Full statement for EscapeForJS through ReformatString including the PreserveRawStrings loop — validated by
-the correspondence check and the path predicates of the harness, not yet proved. -/
-def reformat_js_safe_full : Prop :=
-  ∀ (f : QFlags) (src : Bytes), f.js = true →
-    ¬ [0xE2, 0x80, 0xA8] <:+: (reformatString f src).1 ∧ ¬ [0xE2, 0x80, 0xA9] <:+: (reformatString f src).1
+/-- ReformatString, all three branches incl. the PreserveRawStrings loop: no raw U+2028 / U+2029 under EscapeForJS,
+for every input. -/
+theorem reformat_js_safe (f : QFlags) (src : Bytes) (hj : f.js = true) :
+    ¬ [0xE2, 0x80, 0xA8] <:+: (reformatString f src).1 ∧ ¬ [0xE2, 0x80, 0xA9] <:+: (reformatString f src).1 := by
+  cases hp : f.preserve
+  · exact reformat_js_safe_partial f src hj hp
+  · have h : hasLS (reformatString f src).1 = false := by
+      simp only [reformatString, hj, hp]
+      split
+      · rfl
+      · simp only [Bool.or_true, Bool.not_true, Bool.false_and, Bool.false_eq_true, ↓reduceIte]
+        exact preserveLoop_noLS f.html _ _
+    have hn : ¬ ([0xE2, 0x80, 0xA8] <:+: (reformatString f src).1 ∨ [0xE2, 0x80, 0xA9] <:+: (reformatString f src).1) := by
+      intro x
+      have := (hasLS_iff (reformatString f src).1).mpr x
+      rw [h] at this; cases this
+    exact ⟨fun x => hn (Or.inl x), fun x => hn (Or.inr x)⟩
 
-/-- Full statement: reformatting keeps the meaning of the literal. -/
+/-- Everything AppendUnquote returns is well-formed UTF-8 (so re-quoting it is lossless). -/
+theorem unquote_wellFormed (src : Bytes) : WellFormed (appendUnquote src).1 := appendUnquote_wellFormed src
+
+/-- ReformatString keeps the meaning of the literal: proved for the verbatim-copy branch and the re-quote branch
+(i.e. whenever PreserveRawStrings is off or no escape option is on); the output then also unquotes without error
+in the re-quote branch. -/
+theorem reformat_meaning_partial (f : QFlags) (src : Bytes) (hok : (reformatString f src).2.2 = Err.ok)
+    (hp : f.preserve = false ∨ (f.html = false ∧ f.js = false)) :
+    (appendUnquote (reformatString f src).1).1 = (appendUnquote (src.take (reformatString f src).2.1)).1 := by
+  simp only [reformatString] at hok ⊢
+  split
+  · rename_i herr; rw [if_pos herr] at hok; exact absurd hok herr
+  · split
+    · rfl
+    · rename_i hv
+      split
+      · rename_i hpres
+        rcases hp with hp | ⟨h1, h2⟩
+        · rw [hp] at hpres; cases hpres
+        · simp [h1, h2, hpres] at hv
+      · simp only
+        rw [unquote_quote_lossy, lossy_of_wellFormed _ (appendUnquote_wellFormed _)]
+
+/-- Full statement: reformatting keeps the meaning of the literal.  Open part: the PreserveRawStrings loop with an
+escape option on (the remaining branches are `reformat_meaning_partial`). -/
 def reformat_meaning_full : Prop :=
   ∀ (f : QFlags) (src : Bytes), (reformatString f src).2.2 = Err.ok →
     (appendUnquote (reformatString f src).1).1 = (appendUnquote (src.take (reformatString f src).2.1)).1
@@ -160,6 +229,65 @@ theorem unquote_meaning (lit m : Bytes) (h : StringLiteral lit m) : appendUnquot
 
 example : StringLiteral [0x22, 0x5c, 0x6e, 0x22] [0x0a] :=
   ⟨[0x5c, 0x6e], rfl, Unescapes.simple (by decide) Unescapes.nil⟩
+
+/-! ### ConsumeString's canonical flag -/
+
+/-- ConsumeString leaves a literal it accepts canonical (no stringNonCanonical flag — the condition under which
+ReformatString copies it verbatim) exactly when the literal is the RFC 8785 serialisation of its own meaning.
+The boundary `v1 >= ' '` of decode.go:197 is `escNonCanon` in the model. -/
+theorem consume_canonical_iff (v : Bool) (lit : Bytes)
+    (h : (consumeString v lit).1 = lit.length ∧ (consumeString v lit).2.1 = Err.ok) :
+    (consumeString v lit).2.2 = false ↔ lit = canonQuote (appendUnquote lit).1 :=
+  consumeString_canonical_iff v lit h
+
+/-- the RFC 8785 serialisation of any text is accepted and left canonical -/
+theorem consume_canonQuote (v : Bool) (s : Bytes) : consumeString v (canonQuote s) = ((canonQuote s).length, Err.ok, false) :=
+  consumeString_canonQuote v s
+
+example : (consumeString true [0x22, 0x5c, 0x75, 0x30, 0x30, 0x32, 0x30, 0x22]).2.2 = true := by decide +kernel  -- "\u0020"
+example : (consumeString true [0x22, 0x5c, 0x75, 0x30, 0x30, 0x31, 0x66, 0x22]).2.2 = false := by decide +kernel -- "\u001f"
+
+/-! ### AppendUnquote on raw ill-formed bytes -/
+
+/-- Unquoting raw content (no `"`, `\`, control byte) that may be ill-formed: the text with exactly one U+FFFD per
+ill-formed byte (`lossy`, longer by two bytes for each), and ErrInvalidUTF8 iff there is at least one. -/
+theorem unquote_fffd_count (body : Bytes) (hb : RawBody body) :
+    appendUnquote (0x22 :: (body ++ [0x22])) =
+      (lossy body, if 0 < illFormedCount body then Err.invalidUTF8 else Err.ok) ∧
+    (lossy body).length = body.length + 2 * illFormedCount body := by
+  refine ⟨?_, lossy_length body⟩
+  simp only [appendUnquote, ↓reduceIte]
+  exact unqLoop_raw body hb Err.ok
+
+example : RawBody [0x61, 0xff, 0xE2, 0x80] := by
+  intro b hb; simp at hb; rcases hb with rfl | rfl | rfl | rfl <;> decide
+
+/-! ### Glue with slice C01 (Model/WireDecode.lean): one model of strings -/
+
+open JsonV.Lemmas.GlueQuote in
+/-- This slice's ConsumeString model equals C01's on every input (consumed length, stringNonCanonical, error class). -/
+theorem glue_consumeString (b : Bytes) (v : Bool) :
+    (JsonV.Model.Wire.consumeString b v).1 = (consumeString v b).1 ∧
+    (JsonV.Model.Wire.consumeString b v).2.1.nonCanonical = (consumeString v b).2.2 ∧
+    (JsonV.Model.Wire.consumeString b v).2.2 = errInj (consumeString v b).2.1 := consumeString_eq b v
+
+open JsonV.Lemmas.GlueQuote in
+/-- This slice's AppendUnquote model equals C01's `unquote` on every input. -/
+theorem glue_unquote (src : Bytes) :
+    JsonV.Model.Wire.unquote src = ((appendUnquote src).1, errInj (appendUnquote src).2) := unquote_eq src
+
+open JsonV.Lemmas.GlueQuote in
+theorem glue_errInj_injective : ∀ a b, errInj a = errInj b → a = b := errInj_injective
+
+/-- C01's grammar theorem `string_iff`, for this slice's scanner. -/
+theorem string_iff_quote (b : Bytes) (v : Bool) (n : Nat) :
+    (∃ nc, consumeString v b = (n, Err.ok, nc)) ↔ n ≤ b.length ∧ JsonV.Spec.Grammar.JString v (b.take n) :=
+  JsonV.Lemmas.GlueQuote.consumeString_grammar b v n
+
+/-- This slice's RFC 8259 meaning theorem, for C01's `unquote`. -/
+theorem wire_unquote_meaning (lit m : Bytes) (h : StringLiteral lit m) :
+    JsonV.Model.Wire.unquote lit = (m, JsonV.Model.Wire.Err.ok) :=
+  JsonV.Lemmas.GlueQuote.wire_unquote_meaning lit m h
 
 /-! ### Totality: the `panic("BUG: unhandled character")` branches are unreachable -/
 
